@@ -150,6 +150,39 @@ struct Harness {
       }
    }
 
+   // Client-made operands that are NOT in normal form (a Qualified node whose main variant is a Qualified node, two and three
+   // levels deep, built by hand or by a front end's own implementation of the interface): the answer is still this Lexicon's node
+   // for the union of every level's set over the innermost unqualified type.
+   void denormalised_operands()
+   {
+      for (std::size_t ti = 0; ti < base.size(); ti += 3) {
+         const Type& T = *base[ti];
+         for (int rep = 0; rep < 12; ++rep) {
+            const std::uintptr_t l1 = 1 + rng.below(7), l2 = 1 + rng.below(7), l3 = 1 + rng.below(7), ask = 1 + rng.below(7);
+            client_made.emplace_back(impl::Qualified::Rep { Qualifiers(l1), T }); const Type& inner = client_made.back();
+            client_made.emplace_back(impl::Qualified::Rep { Qualifiers(l2), inner }); const Type& two = client_made.back();
+            client_made.emplace_back(impl::Qualified::Rep { Qualifiers(l3), two }); const Type& three = client_made.back();
+            // a library-made node as the innermost qualified level, too
+            client_made.emplace_back(impl::Qualified::Rep { Qualifiers(l2), lex.get_qualified(Qualifiers(l1), T) }); const Type& over_own = client_made.back();
+            model.emplace(std::make_pair(l1, &T), &lex.get_qualified(Qualifiers(l1), T));
+            struct { const Type* op; std::uintptr_t all; const char* what; } cases[] = { { &two, l1 | l2, "two-levels" }, { &three, l1 | l2 | l3, "three-levels" }, { &over_own, l1 | l2, "client-level-over-own-node" } };
+            for (auto& c : cases) {
+               const std::uintptr_t S = c.all | ask;
+               const Qualified& R = lex.get_qualified(Qualifiers(ask), *c.op);
+               ctx().count("requalifications_of_a_client_made_operand_not_in_normal_form");
+               const std::string fam = std::string("client-made-nested-operand:") + c.what;
+               auto why = [&](const char* what) { ctx().viol(std::string(what) + ":" + fam, std::string(what) + " when qualifying (set " + std::to_string(ask) + ") a client-made qualified type nested " + c.what + " (sets " + std::to_string(l1) + "," + std::to_string(l2) + "," + std::to_string(l3) + ")", J().n("ask", (long long)ask).str()); };
+               if (std::uintptr_t(R.qualifiers()) != S) why("qualifiers-not-union");
+               if (&R.main_variant() != &T) why("main-variant-not-innermost");
+               if (R.main_variant().category == Category_code::Qualified) why("main-variant-is-qualified");
+               auto [it, fresh] = model.emplace(std::make_pair(S, &T), &R);
+               if (!fresh && it->second != &R) why("order-dependent-node");
+               ctx().eval(hash_mix(hash_mix(ti, S), hash_bytes(c.what)), true);
+            }
+         }
+      }
+   }
+
    void live_table()
    {
       const impl::type_factory& tf = lex;
@@ -181,7 +214,7 @@ static void body(Ctx& C)
           "types of every kind, interleaved with unrelated type requests; sampled part: random sequences of length <= 12 including "
           "extended high bits; every intermediate result is checked (qualifiers == union so far, main variant == T and not Qualified, "
           "same node for the same (union,T) whatever the route); empty sets are requested on every kind and must be refused");
-   C.need("requalifications"); C.need("get_qualified_calls:operand-as-most-derived-type"); C.need("empty_set_refused"); C.need("table_validations"); C.need("distinct_normal_forms"); if (C.worker == 0) { C.need("requalifications_of_a_client_made_qualified_type"); C.need("requalifications_of_another_lexicons_qualified_type"); }
+   C.need("requalifications"); C.need("get_qualified_calls:operand-as-most-derived-type"); C.need("empty_set_refused"); C.need("table_validations"); C.need("distinct_normal_forms"); if (C.worker == 0) { C.need("requalifications_of_a_client_made_qualified_type"); C.need("requalifications_of_another_lexicons_qualified_type"); } if (C.worker == 1 % C.workers) C.need("requalifications_of_a_client_made_operand_not_in_normal_form");
    Harness H(C.seed);
    // exhaustive: sequences of non-empty subsets, length <= 4; base types split across workers
    long long job = 0;
@@ -223,6 +256,7 @@ static void body(Ctx& C)
       if (i == 0) C.sample(J().s("kind", "random").raw("sets", jarr(q, q + k, [](std::uintptr_t v) { return std::to_string(v); })).str());
    }
    if (C.worker == 0) H.foreign_operands();
+   if (C.worker == 1 % C.workers) H.denormalised_operands();
    H.live_table();
    C.exhaustive(false);
    C.extra("exhaustive_subspace", "\"all 2800 sequences of non-empty subsets of the 3 basic qualifiers of length<=4, for each of 40 unqualified types\"");
